@@ -159,17 +159,19 @@ def %(name)s_twin(X: List[int]) -> bool:
 
 def enumerate_specs(tier):
     specs = []
-    nmax = 3 if tier == "quick" else 4
+    nmax = 3 if tier == "quick" else 5
     for n in range(1, nmax + 1):
         perms = [None] + [list(p) for p in itertools.permutations(range(n))]
         if tier == "quick" and n == 3:
             perms = perms[:1] + perms[1::2]
         if n == 4:
             perms = perms[:1] + perms[1::5]
+        if n == 5:
+            perms = perms[:1] + perms[1::29]
         for perm in perms:
             for val in (False, True):
                 specs.append({"kind": "split", "n": n, "perm": perm, "val": val})
-    for n in range(1, (3 if tier == "quick" else 4) + 1):
+    for n in range(1, (3 if tier == "quick" else 5) + 1):
         specs.append({"kind": "onehot", "n": n})
     return specs
 
@@ -185,7 +187,7 @@ def main(tier, seed):
     specs = enumerate_specs(tier)
     results = runner.run_pool(__name__, specs, tier, seed)
     # E2: DataLoader
-    maxn = 4 if tier == "quick" else 6
+    maxn = 4 if tier == "quick" else 7
     files = []
     for bs in range(1, (4 if tier == "quick" else 6) + 1):
         for use_t in (False, True):
